@@ -146,6 +146,9 @@ Check solve_basic_correct_R : forall (M : matrix AR) (b : list AR),
        (forall i, i < rows M -> mvprod (rows M) (ent M) (fun k => nth k y zero) i = nth i b zero) -> y = x).
 Print Assumptions solve_basic_correct_R.
 
+(* separator for the driver's parser of Print Assumptions output (an axiom list is followed by a closed block) *)
+Print Assumptions solve_basic_sound.
+
 (* Safety: on a well-formed, conformable, non-empty square system the only panic solve_basic can raise is the
    zero divisor (no index out of range, no usize underflow, no guard), over any field; and under the
    magnitude laws a panic certifies that the matrix has no left inverse (third theorem shape of DESIGN 3.3). *)
@@ -203,3 +206,6 @@ Check solve_basic_correct_C : forall (M : matrix ACR) (b : list ACR),
     (forall y, length y = rows M ->
        (forall i, i < rows M -> mvprod (rows M) (ent M) (fun k => nth k y zero) i = nth i b zero) -> y = x).
 Print Assumptions solve_basic_correct_C.
+
+(* separator for the driver's parser of Print Assumptions output (an axiom list is followed by a closed block) *)
+Print Assumptions solve_basic_sound.
